@@ -6,6 +6,8 @@ let rec pos_of_int (n : int) : positive =
 let z_of_int (n : int) : z = if n = 0 then Z0 else if n > 0 then Zpos (pos_of_int n) else Zneg (pos_of_int (- n))
 let rec int_of_pos (p : positive) : int = match p with XH -> 1 | XO q -> 2 * int_of_pos q | XI q -> 2 * int_of_pos q + 1
 let int_of_z (x : z) : int = match x with Z0 -> 0 | Zpos p -> int_of_pos p | Zneg p -> - (int_of_pos p)
+let rec nat_of_int_e (n : int) : nat = if n <= 0 then O else S (nat_of_int_e (n - 1))
+let rec int_of_nat_e (n : nat) : int = match n with O -> 0 | S m -> 1 + int_of_nat_e m
 let explode (s : string) : char list = List.init (String.length s) (String.get s)
 let implode (l : char list) : string = String.of_seq (List.to_seq l)
 
@@ -25,8 +27,61 @@ let split_bar toks =
 let res_str (r : z res) : string =
   match r with Ok v -> "ok " ^ string_of_int (int_of_z v) | Throw (e, _) -> "throw " ^ implode e
 
+(* ---- floating-point kernels (C-bit): floats travel as 16 hex digits *)
+let fbits (f : float) : string = Printf.sprintf "%016Lx" (Int64.bits_of_float f)
+let fof (s : string) : float = Int64.float_of_bits (Int64.of_string ("0x" ^ s))
+let ofl (x : float) : Obj.t = Obj.repr x
+let tofl (x : Obj.t) : float = (Obj.obj x : float)
+let cutoff = ref 0.0
+let consts : float array ref = ref [||]
+type rd = { mutable rest : string list }
+let rint r = match r.rest with x :: t -> r.rest <- t; int_of_string x | [] -> failwith "short"
+let rfl r = match r.rest with x :: t -> r.rest <- t; ofl (fof x) | [] -> failwith "short"
+let rvec r n = List.init n (fun _ -> rfl r)
+let rmat r rows cols = List.init cols (fun _ -> rvec r rows)     (* list of columns *)
+let pv (b : Buffer.t) (v : Obj.t list) = List.iter (fun x -> Buffer.add_string b (fbits (tofl x)); Buffer.add_char b ' ') v
+let pm (b : Buffer.t) (m : Obj.t list list) = List.iter (pv b) m
+
 let handle (toks : string list) : string =
   match toks with
+  | "setconsts" :: vals -> consts := Array.of_list (List.map fof vals); cutoff := !consts.(2); "ok"
+  | ["rot"; x; y] ->
+      let ((r, c), s) = compute_rotation opsFloat (ofl !cutoff) (ofl (fof x)) (ofl (fof y)) in
+      let b = Buffer.create 64 in pv b [r; c; s]; Buffer.contents b
+  | "hqr" :: rest ->
+      let r = { rest } in
+      let n = rint r in let shift = rfl r in let h = rmat r n n in let y = rvec r n in
+      let m = rint r in let yy = rmat r n m in let z = rmat r m n in
+      let (rr, rots) = hqr_compute opsFloat (ofl !cutoff) (nat_of_int_e n) h shift in
+      let b = Buffer.create 4096 in
+      pm b rr; pv b (List.map fst rots); pv b (List.map snd rots);
+      pm b (hqr_QtHQ opsFloat rr rots shift);
+      pv b (apply_QtY opsFloat rots y); pv b (apply_QY opsFloat rots y);
+      pm b (apply_QtY_mat opsFloat rots yy); pm b (apply_QY_mat opsFloat rots yy);
+      pm b (apply_YQ opsFloat rots z); pm b (apply_YQt opsFloat rots z);
+      Buffer.contents b
+  | "dsqr" :: rest ->
+      let r = { rest } in
+      let n = rint r in let ss = rfl r in let tt = rfl r in let h = rmat r n n in let y = rvec r n in
+      let m = rint r in let z = rmat r m n in
+      let eps = ofl !consts.(0) in let near0 = ofl !consts.(1) in
+      let (q, rs) = ds_compute opsFloat (ofl !cutoff) near0 eps (nat_of_int_e n) h ss tt in
+      let b = Buffer.create 4096 in
+      pm b q;
+      List.iter (fun (nr, _) -> Buffer.add_string b (string_of_int (int_of_nat_e nr)); Buffer.add_char b ' ') rs;
+      List.iter (fun (nr, ((u0, u1), u2)) -> if int_of_nat_e nr > 1 then pv b [u0; u1; u2]) rs;
+      pv b (ds_apply_QtY opsFloat (nat_of_int_e n) rs y);
+      pm b (ds_apply_YQ opsFloat (nat_of_int_e n) (nat_of_int_e m) rs z);
+      Buffer.contents b
+  | "tqr" :: rest ->
+      let r = { rest } in
+      let n = rint r in let shift = rfl r in let d = rvec r n in let sub = rvec r (n - 1) in
+      let eps = ofl !consts.(0) in
+      let q = tqr_compute opsFloat (ofl !cutoff) eps (nat_of_int_e n) d sub shift in
+      let b = Buffer.create 1024 in
+      pv b q.r_diag; pv b q.r_supd; pv b q.r_supd2; pv b (List.map fst q.rots); pv b (List.map snd q.rots);
+      let (dd, ll) = tqr_QtHQ opsFloat eps (nat_of_int_e n) q in
+      pv b dd; pv b ll; Buffer.add_string b "shape-ok"; Buffer.contents b
   | "chk_argsort" :: rule :: n :: rest ->
       let n = int_of_string n in
       let (vs, out) = split_bar rest in
